@@ -396,38 +396,43 @@ def run(tier, seed):
     for it in range(6 if tier == 'quick' else 30):
         seqs.append([(rnd.choice([0x20, 0x24, 0x28, 0x2C, 0xC0, 0xCC, 0xCE, 0xD4, 0xD6, 0xE2, 0x10E, 0x114, 0x11E, 0x184, 0x1BE, 0x1C8, 0x1DA, 0x200, 0x204, 0x206, 0x212, 0x214, 0x2A2, 0x2BE, 0x2C2, 0x2C6, rnd.randrange(0, 0x800, 2)]), rnd.randrange(65536)) for _ in range(6)])
 
-    def nat():
-        t = tw.fn('tn_new', ctypes.c_void_p, [])()
-        wr = tw.fn('ti_mmio_write', None, [ctypes.c_void_p, ctypes.c_uint16, ctypes.c_uint16])
-        rd = tw.fn('ti_mmio_read', ctypes.c_uint16, [ctypes.c_void_p, ctypes.c_uint16])
-        out = []
-        for seq in seqs:
+    def nat_one(seq):
+        def f():
+            t = tw.fn('tn_new', ctypes.c_void_p, [])()
+            wr = tw.fn('ti_mmio_write', None, [ctypes.c_void_p, ctypes.c_uint16, ctypes.c_uint16])
+            rd = tw.fn('ti_mmio_read', ctypes.c_uint16, [ctypes.c_void_p, ctypes.c_uint16])
             tw.fn('ti_reset', None, [ctypes.c_void_p])(t)
             row = []
             for a_, v_ in seq:
-                if a_ == 0x1DE and v_ == 0x40C0:
-                    continue
                 wr(t, a_, v_)
                 row.append(rd(t, a_))
-            out.append(row)
-        return out
-    n = native.in_child(nat, timeout=120)
+            return row
+        return f
     bex, bst, bctx = G.build_impl()
-    if n[0] != 'ok':
-        ck.engine_errors.append('translator validation: native run failed %r' % (n,))
-    else:
-        for seq, want in zip(seqs, n[1]):
-            s1 = bst.fork()
-            bex.call(s1, '@ti_reset', [bctx['impl']])
-            got = []
-            for a_, v_ in seq:
-                if a_ == 0x1DE and v_ == 0x40C0:
-                    continue
-                bex.call(s1, '@ti_mmio_write', [bctx['impl'], a_, v_])
-                r_ = bex.call(s1, '@ti_mmio_read', [bctx['impl'], a_])[1]
-                got.append(r_ if is_c(r_) else z3.simplify(bv(r_, 16)).as_long())
-            if got == want:
-                ck.validated += 1
-            else:
-                ck.engine_errors.append('translator validation mismatch MMIO sequence %r: exec %r native %r' % (seq, got, want))
+    for seq in seqs:
+        # the library aborts (UNREACHABLE / unimplemented register values) on some writes: a native abort must be matched
+        # by an abort exit in the executor on the same sequence, a native read-back by the same values
+        n = native.in_child(nat_one(seq), timeout=120)
+        s1 = bst.fork()
+        bex.exits = []
+        got, dead = [], False
+        r0 = bex.call(s1, '@ti_reset', [bctx['impl']])
+        for a_, v_ in seq:
+            r_ = bex.call(s1, '@ti_mmio_write', [bctx['impl'], a_, v_])
+            if r_ is None or r_ is DEAD:
+                dead = True
+                break
+            r_ = bex.call(s1, '@ti_mmio_read', [bctx['impl'], a_])
+            if r_ is None or r_ is DEAD:
+                dead = True
+                break
+            r_ = r_[1]
+            got.append(r_ if is_c(r_) else z3.simplify(bv(r_, 16)).as_long())
+        if n[0] == 'ok' and not dead and got == n[1]:
+            ck.validated += 1
+        elif n[0] == 'signal' and dead and any(x[1] in ('abort', 'assert') for x in bex.exits):
+            ck.validated += 1
+        else:
+            ck.engine_errors.append('translator validation mismatch MMIO sequence %r: exec %r dead=%r exits=%r native %r' % (seq, got, dead, [x[1:] for x in bex.exits], n))
+    bex.exits = []
     return ck.finish('read-back for all 0x800 offsets, footprint-based non-aliasing, DMA window independence, access paths, IRQ wiring')
